@@ -170,6 +170,8 @@ def items(tier, seed):
 
 def same(a, b):
     """IEEE equality of two tuples of floats (0.0 == -0.0; NaN equals nothing)."""
+    if a is None or b is None:
+        return False
     return len(a) == len(b) and all(x == y for x, y in zip(a, b))
 
 
@@ -190,7 +192,6 @@ class Family:
     entry = "?"
     term_idx = None  # position of the termination flag inside a step tuple
     per_t = True  # an estimate for every t (otherwise for t = 0 only)
-    batch_output = False  # additionally one output for the whole batch, filed under member -1
     has_reference = True
 
     def __init__(self, item):
@@ -355,7 +356,11 @@ def _diagnose(fam, col, cfg, g, ctx2, val2, i, t):
                 return val1
             if h == ctx2:
                 return val2
-            return fam.evaluate(h)[(i, t)]
+            try:
+                out = fam.evaluate(h)
+            except Rejected:
+                return None
+            return None if out is None else out.get((i, t))
 
         chain = [(ctx1, val1), (h1, ev(h1)), (h2, ev(h2)), (ctx2, val2)]
         kinds = [K_OTHER, K_POST, K_PRE]
@@ -424,7 +429,10 @@ class Rtg(Family):
 
         rewards = [s[0] for s in ctx[0][0]]
         arg = list(rewards)
-        out = np.asarray(discounted_reward_to_go(arg, self.item["gamma"]))
+        try:
+            out = np.asarray(discounted_reward_to_go(arg, self.item["gamma"]))
+        except Exception as e:  # noqa: BLE001
+            raise Rejected(f"{type(e).__name__}: {e}") from e
         if out.shape != (len(rewards),) or arg != rewards:
             self.col.violation(SIG.format(self.entry, K_SHAPE), dict(rewards=rewards, shape=out.shape, argument_after=arg))
             return None
@@ -464,7 +472,10 @@ class Pgd(Family):
             ds.start_episode()
             for t, (r,) in enumerate(steps):
                 ds.add_sample(np.array([i, t], dtype=np.float32), (i + t) % 2, np.array([i, t + 1], dtype=np.float32), r)
-        obs, act, nobs, ret, disc = ds.prepare_policy_gradient_dataset(gym.spaces.Discrete(2), self.item["gamma"])
+        try:
+            obs, act, nobs, ret, disc = ds.prepare_policy_gradient_dataset(gym.spaces.Discrete(2), self.item["gamma"])
+        except Exception as e:  # noqa: BLE001
+            raise Rejected(f"{type(e).__name__}: {e}") from e
         obs, ret = np.asarray(obs), np.asarray(ret)
         n = sum(len(s) for s, _ in ctx)
         if ret.shape != (n,) or obs.shape != (n, 2):
@@ -519,7 +530,7 @@ class NStep(Family):
     def evaluate(self, ctx):
         import jax.numpy as jnp
 
-        N, H = len(ctx), len(ctx[0][0])
+        N = len(ctx)
         r = np.array([[s[0] for s in m[0]] for m in ctx], dtype=np.float32)
         te = np.array([[s[1] for s in m[0]] for m in ctx], dtype=np.int32)
         try:
@@ -884,8 +895,7 @@ def _tiny_mrq(seed):
 
 
 class Mrq(SampleBatch):
-    entry = "mrq.mrq_loss"
-    batch_output = True
+    entry = "mrq.mrq_loss"  # member -1 = the batch loss
     tails = (0, 1)
     scales = (2.0, 0.5)  # reward_scale, target_reward_scale
 
@@ -896,7 +906,7 @@ class Mrq(SampleBatch):
 
         from rl_blox.algorithm.mrq import mrq_loss
 
-        N, H = self.dims()
+        N, _ = self.dims()
         self.nets = _tiny_mrq(self.item["seed"])
         enc, enc_t, q, q_t = self.nets
         g = self.item["gamma"]
@@ -944,10 +954,7 @@ class Mrq(SampleBatch):
         )
 
     def evaluate(self, ctx):
-        import jax.numpy as jnp
-
         N, H = self.dims()
-        enc, enc_t, q, q_t = self.nets
         r = np.array([[self.reward(i, t, s[0]) for t, s in enumerate(m[0])] for i, m in enumerate(ctx)], dtype=np.float32)
         te = np.array([[s[1] for s in m[0]] for m in ctx], dtype=np.int32)
         nobs = np.stack([self.nobs[m[1], i] for i, m in enumerate(ctx)])
@@ -987,8 +994,7 @@ class Mrq(SampleBatch):
 
 
 class Enc(SampleBatch):
-    entry = "model_based_encoder.model_based_encoder_loss"
-    batch_output = True
+    entry = "model_based_encoder.model_based_encoder_loss"  # member -1 = the batch loss (only output)
     has_reference = False
     tails = (None,)
     weights = (1.0, 0.1, 0.1)
@@ -1045,8 +1051,6 @@ class Enc(SampleBatch):
         )
 
     def evaluate(self, ctx):
-        import jax.numpy as jnp
-
         N, H = self.dims()
         r = np.array([[self.reward(i, t, s[0]) for t, s in enumerate(m[0])] for i, m in enumerate(ctx)], dtype=np.float32)
         te = np.array([[s[1] for s in m[0]] for m in ctx], dtype=np.int32)
